@@ -84,21 +84,22 @@ Record unacked := { u_tag : N; u_ctag : string; u_queue : string; u_qid : N; u_m
 Inductive chstatus := ChNew | ChOpen | ChClosing | ChClosed.
 Record channel := { ch_status : chstatus; ch_flow : bool; ch_dtag : N; ch_ctag : N; ch_confirm : bool;
                     ch_ticker : bool; ch_cur : option N; ch_consumers : list consumer;
-                    ch_qos : qosw; ch_cqos : qosw; ch_unacked : list unacked; ch_confirmq : list N }.
+                    ch_qos : qosw; ch_cqos : qosw; ch_unacked : list unacked; ch_confirmq : list N; ch_inst : N }.
 #[export] Instance eta_channel : Settable _ :=
-  settable! Build_channel <ch_status; ch_flow; ch_dtag; ch_ctag; ch_confirm; ch_ticker; ch_cur; ch_consumers; ch_qos; ch_cqos; ch_unacked; ch_confirmq>.
+  settable! Build_channel <ch_status; ch_flow; ch_dtag; ch_ctag; ch_confirm; ch_ticker; ch_cur; ch_consumers; ch_qos; ch_cqos; ch_unacked; ch_confirmq; ch_inst>.
 Definition channel0 : channel :=
   {| ch_status := ChNew; ch_flow := true; ch_dtag := 0; ch_ctag := 0; ch_confirm := false; ch_ticker := false;
-     ch_cur := None; ch_consumers := []; ch_qos := qos0; ch_cqos := qos0; ch_unacked := []; ch_confirmq := [] |}.
+     ch_cur := None; ch_consumers := []; ch_qos := qos0; ch_cqos := qos0; ch_unacked := []; ch_confirmq := []; ch_inst := 0 |}.
 
 Record conn := { cn_chans : list (N * channel); cn_qos : qosw }.
 #[export] Instance eta_conn : Settable _ := settable! Build_conn <cn_chans; cn_qos>.
 
 Record msg := { m_mid : N; m_ex : string; m_key : string; m_mand : bool; m_pers : bool; m_has_header : bool;
                 m_hsize : N; m_size : N; m_body : list N; m_dc : N;
-                m_conf : option (N * N * N); m_expected : Z; m_actual : Z }.
+                m_conf : option (N * N * N); m_inst : N; m_expected : Z; m_actual : Z }.
+(* m_conf: ConfirmMeta (connection, channel number, sequence number); m_inst: the use of that channel number it belongs to *)
 #[export] Instance eta_msg : Settable _ :=
-  settable! Build_msg <m_mid; m_ex; m_key; m_mand; m_pers; m_has_header; m_hsize; m_size; m_body; m_dc; m_conf; m_expected; m_actual>.
+  settable! Build_msg <m_mid; m_ex; m_key; m_mand; m_pers; m_has_header; m_hsize; m_size; m_body; m_dc; m_conf; m_inst; m_expected; m_actual>.
 
 Record queue := { q_id : N; q_ready : list N; q_owner : N; q_excl : bool; q_autodel : bool; q_durable : bool; q_active : bool;
                   q_consumers : list (N * N * string); q_cexcl : bool; q_wasconsumed : bool; q_rr : nat; q_call : bool;
@@ -688,6 +689,41 @@ Definition add_confirm (s : state) (c h : N) (tagopt : option (N * N * N)) : sta
   | None => s
   end.
 
+(* channel.addConfirm drops a confirmation that belongs to a previous use of the channel number *)
+Definition live_conf (s : state) (m : msg) : option (N * N * N) :=
+  match m_conf m with
+  | Some (c, h, t) => match get_chan s c h with
+                      | Some ch => if ch_inst ch =? m_inst m then Some (c, h, t) else None
+                      | None => None
+                      end
+  | None => None
+  end.
+
+(* msgstorage.confirm: the store's confirmation of message u; the one completing the message relays it *)
+Definition store_confirm (s : state) (u : N) : state :=
+  match get_msg s u with
+  | Some m => match m_conf m with
+              | Some _ => let s := upd_msg s u (fun m => m <| m_actual ::= Z.succ |>) in
+                          if (Z.succ (m_actual m) =? m_expected m)%Z then s <| relay ::= fun l => l ++ [u] |> else s
+              | None => s
+              end
+  | None => s
+  end.
+
+(* one iteration of the publish loop: Queue.Push reports whether it completed the confirmations - only a push that
+   counts itself (active queue, message not handed to the persistent store) can - and the channel then queues the ack *)
+Definition push_one (s : state) (c h u : N) (pers has_meta : bool) (qn : string) : state :=
+  let counted := match get_queue s qn with
+                 | Some qu => q_active qu && negb (q_durable qu && pers)
+                 | None => false
+                 end in
+  let s := queue_push s qn u in
+  match get_msg s u with
+  | Some m => if has_meta && counted && (m_actual m =? m_expected m)%Z
+              then add_confirm s c h (live_conf s m) else s
+  | None => s
+  end.
+
 (* ------------------------------------------------------------------ *)
 (* publish: channel.handleContentBody after the body is complete *)
 Definition route_and_push (fx : fixes) (s : state) (c h : N) (u : N) : state * list event :=
@@ -696,22 +732,16 @@ Definition route_and_push (fx : fixes) (s : state) (c h : N) (u : N) : state * l
   | Some m =>
     let ret := out1 c h (SReturn NoRoute (m_ex m) (m_key m)) ++ content_frames s c h u in
     match alookup seqb (m_ex m) (exchanges s) with
-    | None => (add_confirm s c h (m_conf m), ret)
+    | None => (add_confirm s c h (live_conf s m), ret)
     | Some ex =>
       let qs := matched_queues (negb (fx_direct_all fx)) ex (m_key m) in
       match qs with
-      | [] => (add_confirm s c h (m_conf m), if m_mand m then ret else [])
+      | [] => (add_confirm s c h (live_conf s m), if m_mand m then ret else [])
       | _ =>
         let confirm := match get_chan s c h with Some ch => ch_confirm ch | None => false end in
         let has_meta := match m_conf m with Some _ => true | None => false end in
         let s := if confirm && has_meta then upd_msg s u (fun m => m <| m_expected := Z.of_nat (List.length qs) |>) else s in
-        let s := fold_left (fun s qn =>
-                              let s := queue_push s qn u in
-                              match get_msg s u with
-                              | Some m => if confirm && has_meta && (m_actual m =? m_expected m)%Z && negb (m_pers m)
-                                          then add_confirm s c h (m_conf m) else s
-                              | None => s
-                              end) qs s in
+        let s := fold_left (fun s qn => push_one s c h u (m_pers m) has_meta qn) qs s in
         (s, [])
       end
     end
@@ -770,6 +800,7 @@ Definition handle_method (cfg : config) (fx : fixes) (s : state) (c h : N) (m : 
       let ch := if fx_reopen_resets fx
                 then ch <| ch_dtag := 0 |> <| ch_ctag := 0 |> <| ch_flow := true |> <| ch_cur := None |> <| ch_qos := qos0 |>
                         <| ch_cqos := qos0 |> <| ch_confirm := false |> <| ch_confirmq := [] |> <| ch_unacked := [] |>
+                        <| ch_inst ::= N.succ |>
                 else ch in
       ok (set_chan s c h (ch <| ch_status := ChOpen |>)) (out1 c h SChannelOpenOk)
     | _ => ok (set_chan s c h (ch <| ch_status := ChOpen |>)) (out1 c h SChannelOpenOk)
@@ -910,7 +941,7 @@ Definition handle_method (cfg : config) (fx : fixes) (s : state) (c h : N) (m : 
       let u := next_uid s in
       let '(conf, ch) := if ch_confirm ch then (Some (c, h, ch_ctag ch + 1), ch <| ch_ctag ::= N.succ |>) else (None, ch) in
       let m := {| m_mid := 0; m_ex := ex; m_key := key; m_mand := mand; m_pers := false; m_has_header := false; m_hsize := 0; m_size := 0;
-                  m_body := []; m_dc := 0; m_conf := conf; m_expected := 0; m_actual := 0 |} in
+                  m_body := []; m_dc := 0; m_conf := conf; m_inst := ch_inst ch; m_expected := 0; m_actual := 0 |} in
       let s := s <| heap := aset N.eqb u m (heap s) |> <| next_uid := u + 1 |> in
       ok (set_chan s c h (ch <| ch_cur := Some u |>)) []
     end
@@ -1138,31 +1169,24 @@ Definition step (cfg : config) (fx : fixes) (s : state) (l : label) : state * li
       let '(s, evs, _) := vhost_delete_queue (negb (fx_delete_checks_first fx)) s qn false false in (s, evs)
     end
   | LPersistTick =>
-    (* msgstorage.persist: a delete cancels a pending add of the same key; adds are written; confirms relayed *)
+    (* msgstorage.persist: a delete cancels a pending add of the same key; adds are written; every add - written or
+       cancelled - counts one confirmation of its message, and the one completing it relays the message *)
     let add := filter (fun k => negb (existsb (fun d => (fst d =? fst k) && seqb (snd d) (snd k)) (st_del s))) (st_add s) in
+    let settled := filter (fun k => existsb (fun d => (fst d =? fst k) && seqb (snd d) (snd k)) (st_del s)) (st_add s) in
     let del := filter (fun d => negb (existsb (fun k => (fst d =? fst k) && seqb (snd d) (snd k)) (st_add s))) (st_del s) in
     let db := filter (fun k => negb (existsb (fun d => (fst d =? fst k) && seqb (snd d) (snd k)) del)) (st_db s ++ add) in
     let s := s <| st_db := db |> <| st_add := [] |> <| st_del := [] |> in
-    fold_left (fun acc k => let '(s, evs) := acc in
-                            match get_msg s (fst k) with
-                            | Some m => match m_conf m with
-                                        | Some _ => (upd_msg s (fst k) (fun m => m <| m_actual ::= Z.succ |>) <| relay ::= fun l => l ++ [fst k] |>, evs)
-                                        | None => (s, evs)
-                                        end
-                            | None => (s, evs)
-                            end) add (s, [])
+    (fold_left (fun s k => store_confirm s (fst k)) (add ++ settled) s, [])
   | LRelay =>
     match relay s with
     | [] => (s, [])
     | u :: rest =>
       let s := s <| relay := rest |> in
       match get_msg s u with
-      | Some m => if (m_actual m =? m_expected m)%Z
-                  then match m_conf m with
-                       | Some (c, h, t) => (add_confirm s c h (m_conf m), [])
-                       | None => (s, [])
-                       end
-                  else (s, [])
+      | Some m => match m_conf m with
+                  | Some (c, h, t) => (add_confirm s c h (live_conf s m), [])
+                  | None => (s, [])
+                  end
       | None => (s, [])
       end
     end
